@@ -847,6 +847,7 @@ impl Exec<'_> {
             rt::wait_threads_exit();
         });
         self.stats.absorb_proc(&r);
+        self.stats.probe("os_entropy_requests_served_from_the_run_seed", r.entropy_calls);
         self.stats.fault("fresh_process_entropy");
         if inst.crash_after.is_some() {
             self.stats.fault("crash_drop_mid_epoch");
